@@ -103,6 +103,12 @@ def fault_jobs() -> List[Dict[str, Any]]:
     add("pattern-scalar", rule="pattern: 5\n")
     add("pattern-empty-list", rule="pattern: []\n")
     add("config-not-mapping", rule="config: 5\n" + VALID_RULE)
+    # a `config` entry of the wrong type that happens to be falsy: not "no configuration"
+    CFG_RULE = "pattern:\n  - push:\n      - rbp\n  - mov\n"
+    add("config-empty-list", rule="config: []\n" + CFG_RULE)
+    add("config-empty-string", rule="config: ''\n" + CFG_RULE)
+    add("config-zero", rule="config: 0\n" + CFG_RULE)
+    add("config-false", rule="config: false\n" + CFG_RULE)
     add("config-flag-wrong-type", rule="config:\n  mnemonics-full-match: 'yes'\n" + VALID_RULE)
     add("config-sections-wrong-type", rule="config:\n  sections: .text\n" + VALID_RULE)
     add("config-style-invalid", rule="config:\n  style: Intel\n" + VALID_RULE)
